@@ -151,8 +151,21 @@ def check_combine(ctx, case):
     from moclo.registry.base import CombinedRegistry
     members = [[(int(k), int(v)) for k, v in m] for m in case["members"]]
     comb = CombinedRegistry()
-    for m in members:
-        comb << ListRegistry([("k%d" % k, v) for k, v in m])
+    nest = case.get("nest", [])
+    i = 0
+    while i < len(members):
+        if i in nest:
+            # a combination added as a member of a combination
+            inner = CombinedRegistry()
+            j = i
+            while j < len(members) and (j == i or j in nest):
+                inner << ListRegistry([("k%d" % k, v) for k, v in members[j]])
+                j += 1
+            comb << inner
+            i = j
+        else:
+            comb << ListRegistry([("k%d" % k, v) for k, v in members[i]])
+            i += 1
     keys = list(comb)
     union = []
     for m in members:
@@ -233,14 +246,15 @@ def run(ctx):
         if d["files"]:
             base = source_records(ctx)[d["files"][0]["src"]][1]
             d["files"] = [f for f in d["files"] if source_records(ctx)[f["src"]][1] is base]
-        check_dir(ctx, d)
+        ctx.guard(check_dir, d)
     for _ in range(ctx.budget(400, 20000)):
         members = [[[rng.randrange(8), rng.randrange(100)] for _ in range(rng.randint(0, 5))]
                    for _ in range(rng.randint(0, 4))]
         members = [[list(kv) for kv in {k: v for k, v in m}.items()] for m in members]   # distinct keys per member
         if members and rng.random() < 0.3:
             members.append(rng.choice(members))
-        check_combine(ctx, {"members": members})
+        nest = [i for i in range(len(members)) if rng.random() < 0.3] if rng.random() < 0.5 else []
+        ctx.guard(check_combine, {"members": members, "nest": nest})
     names = [n for n, _ in embedded(ctx)]
     for _ in range(ctx.budget(3, 40)):
         ms = [["emb", rng.choice(names)] for _ in range(rng.randint(1, 3))]
@@ -252,15 +266,15 @@ def run(ctx):
             ms.insert(rng.randrange(len(ms) + 1), ["dir", d])
         if rng.random() < 0.5:
             ms.append(ms[0])
-        check_combine_real(ctx, {"real_members": ms})
+        ctx.guard(check_combine_real, {"real_members": ms})
 
 
 def check_case(ctx, case):
     if "registry" in case:
         check_embedded(ctx)
     elif "members" in case:
-        check_combine(ctx, case)
+        ctx.guard(check_combine, case)
     elif "real_members" in case:
-        check_combine_real(ctx, case)
+        ctx.guard(check_combine_real, case)
     else:
-        check_dir(ctx, case)
+        ctx.guard(check_dir, case)
